@@ -43,6 +43,12 @@ class OpReport:
     skeleton_sources: list = field(default_factory=list)  # (label, source, constants)
     hygiene: list = field(default_factory=list)  # Hole records
     fail_parity: dict = field(default_factory=dict)
+    deferred: list = field(default_factory=list)  # what E1 / E2 could not analyse: the semantic rules still run
+
+    def defer(self, err: Exception) -> None:
+        msg = str(err)
+        if msg not in self.deferred:
+            self.deferred.append(msg)
 
     def count(self, unit: str, n: int = 1) -> None:
         self.units[unit] = self.units.get(unit, 0) + n
@@ -803,58 +809,68 @@ def delegation_checks(repo: Repo, rep: OpReport, rel: str, cls: str) -> str | No
     return a
 
 
+def _analyse_operator(repo: Repo, rep: OpReport, rel: str, cls: str, tier: str) -> None:  # noqa: PLR0912
+    known = cls in opspec.SPECS or cls in STACK_TERMINALS or cls in SIMPLE_TERMINALS
+    if not known:
+        rep.units.setdefault("operators_without_spec", 0)
+        rep.units["operators_without_spec"] += 1
+    rep.count("operator_classes")
+    deleg = delegation_checks(repo, rep, rel, cls)
+    spec_cls = "Group" if deleg else cls
+    for params, unroll in bindings(cls, tier):
+        if deleg:
+            params = {**params, "_delegate": deleg}
+        tp = tmpl_params(params)
+        sks = tmpl.operator_skeletons(repo, rel, cls, tp)
+        for sk in sks:
+            rep.skeleton_sources.append((sk.label(), sk))
+            rep.hygiene.extend(sk.holes)
+        rep.count("skeleton_variants", len(sks))
+        for entry in entries(cls, tier):
+            recs, flow = ops.run_parse(repo, rel, cls, params, entry, unroll)
+            rep.count("parse_paths", len(recs))
+            rep.count("parse_runs")
+            all_recs = list(recs)
+            for sk in sks:
+                try:
+                    grecs, gflow = ops.run_skeleton(repo, sk, params, entry, unroll)
+                except ops._SkeletonSyntax as e:  # noqa: SLF001
+                    what = f"emitted code does not parse: {e.err.msg}"
+                    rep.oblige({"C01"}, "SYNTAX", sk.construct, what, False, Finding("SYNTAX", sk.construct, what, f"{short(sk.construct)}: {what}", {"variant": sk.label(), "source": sk.source}))
+                    continue
+                rep.count("skeleton_paths", len(grecs))
+                rep.count("skeleton_runs")
+                all_recs.extend(grecs)
+            for rec in all_recs:
+                generic_checks(rep, rec, cls)
+                if spec_cls in opspec.SPECS:
+                    spec_checks(rep, rec, spec_cls, params)
+                if cls == "Push":
+                    push_checks(rep, rec)
+                if cls in STACK_TERMINALS or cls in SIMPLE_TERMINALS:
+                    terminal_checks(rep, rec, cls, params)
+            shape_checks(rep, all_recs, cls)
+            if len(rep.samples) < 30 and all_recs:
+                r0 = all_recs[len(all_recs) // 2]
+                rep.samples.append({"construct": r0.construct, "variant": r0.variant, "path": r0.trace_str(), "result": str(r0.result)})
+
+
 def analyse(repo: Repo, tier: str = "quick", diff: bool = True) -> OpReport:  # noqa: PLR0912, PLR0915
     rep = OpReport()
     masks = ops.modifier_masks(repo)
 
-    # ---- ordinary operators, both siblings
+    # ---- ordinary operators, both siblings (what E1 / E2 cannot read of one class is deferred: the other classes and
+    # the semantic rules are still decided, and the run ends undecided - exit 2 - only if nothing is violated)
     for rel, cls in operator_classes(repo):
-        known = cls in opspec.SPECS or cls in STACK_TERMINALS or cls in SIMPLE_TERMINALS
-        if not known:
-            rep.units.setdefault("operators_without_spec", 0)
-            rep.units["operators_without_spec"] += 1
-        rep.count("operator_classes")
-        deleg = delegation_checks(repo, rep, rel, cls)
-        spec_cls = "Group" if deleg else cls
-        for params, unroll in bindings(cls, tier):
-            if deleg:
-                params = {**params, "_delegate": deleg}
-            tp = tmpl_params(params)
-            sks = tmpl.operator_skeletons(repo, rel, cls, tp)
-            for sk in sks:
-                rep.skeleton_sources.append((sk.label(), sk))
-                rep.hygiene.extend(sk.holes)
-            rep.count("skeleton_variants", len(sks))
-            for entry in entries(cls, tier):
-                recs, flow = ops.run_parse(repo, rel, cls, params, entry, unroll)
-                rep.count("parse_paths", len(recs))
-                rep.count("parse_runs")
-                all_recs = list(recs)
-                for sk in sks:
-                    try:
-                        grecs, gflow = ops.run_skeleton(repo, sk, params, entry, unroll)
-                    except ops._SkeletonSyntax as e:  # noqa: SLF001
-                        what = f"emitted code does not parse: {e.err.msg}"
-                        rep.oblige({"C01"}, "SYNTAX", sk.construct, what, False, Finding("SYNTAX", sk.construct, what, f"{short(sk.construct)}: {what}", {"variant": sk.label(), "source": sk.source}))
-                        continue
-                    rep.count("skeleton_paths", len(grecs))
-                    rep.count("skeleton_runs")
-                    all_recs.extend(grecs)
-                for rec in all_recs:
-                    generic_checks(rep, rec, cls)
-                    if spec_cls in opspec.SPECS:
-                        spec_checks(rep, rec, spec_cls, params)
-                    if cls == "Push":
-                        push_checks(rep, rec)
-                    if cls in STACK_TERMINALS or cls in SIMPLE_TERMINALS:
-                        terminal_checks(rep, rec, cls, params)
-                shape_checks(rep, all_recs, cls)
-                if len(rep.samples) < 30 and all_recs:
-                    r0 = all_recs[len(all_recs) // 2]
-                    rep.samples.append({"construct": r0.construct, "variant": r0.variant, "path": r0.trace_str(), "result": str(r0.result)})
-
+        try:
+            _analyse_operator(repo, rep, rel, cls, tier)
+        except AnalysisError as err:
+            rep.defer(err)
     if diff:
-        diff_checks(repo, rep, masks, tier)
+        try:
+            diff_checks(repo, rep, masks, tier)
+        except AnalysisError as err:
+            rep.defer(err)
     # ---- E2 models ParserState's context managers by name: their source is checked against that model (E8)
     n_c, bad_c = opsem.check_ctx_managers(repo, "CTX-MODEL")
     rep.count("ctx_model_points", n_c)
@@ -866,9 +882,15 @@ def analyse(repo: Repo, tier: str = "quick", diff: bool = True) -> OpReport:  # 
         props_c = {"atomic_checkpoint": {"C04", "C06"}, "suppress_failures": {"C13"}, "tag": {"C06", "C08"}}.get(label, {"C04"})
         rep.oblige(props_c, "CTX-MODEL", f"{ccon}.{label}", cat, False, Finding("CTX-MODEL", f"{ccon}.{label}", cat, f"{cat}: {detail}", {"witness": detail}))
     # ---- Rule
-    analyse_rules(repo, rep, masks, tier)
+    try:
+        analyse_rules(repo, rep, masks, tier)
+    except AnalysisError as err:
+        rep.defer(err)
     # ---- parse_trivia siblings
-    analyse_trivia(repo, rep, tier)
+    try:
+        analyse_trivia(repo, rep, tier)
+    except AnalysisError as err:
+        rep.defer(err)
     # ---- failure-recording parity between siblings
     for key, sides in sorted(rep.fail_parity.items(), key=lambda kv: str(kv[0])):
         if key[0] == "rulepair":
